@@ -340,6 +340,25 @@ def run(ctx):
                    issubclass(pp.ParseException, pp.ParseBaseException) and issubclass(pp.ParseFatalException, pp.ParseBaseException))
     ctx.rule.append("programs from harness/gen.py with '-' weight 8 and fatal actions/conditions (stream dashy) nested in "
                     "every container; inputs sampled from the grammar + mutations; non-trivial = distinct (program,input)")
+    # registered finding: set_debug(recurse=True) before the first parse strands the error stop (debug is outside the
+    # model and the generators)
+    import contextlib
+    import io
+    seq = pp.Literal("a") - pp.Literal("b")
+    with contextlib.redirect_stdout(io.StringIO()), contextlib.redirect_stderr(io.StringIO()):
+        seq.set_debug(True, recurse=True)
+        g = seq | (pp.Literal("a") + "c")
+        try:
+            got = ["ok", g.parse_string("a c").as_list()]
+        except pp.ParseFatalException as ex:
+            got = ["fatal", type(ex).__name__]
+        except pp.ParseBaseException as ex:
+            got = ["exc", type(ex).__name__]
+    if got[0] != "fatal":
+        ctx.fail_input("fatal exception / error stop backtracked over",
+                       {"program": "seq = Literal('a') - Literal('b'); seq.set_debug(True, recurse=True); seq | (Literal('a') + 'c')",
+                        "input": "a c"}, "ParseSyntaxException", got, theorem="C07 statement", signature="set_debug_strands_errorstop")
+    ctx.count_cases("known-finding-witness", 1)
     jobs = []
     for i in range(ctx.budget(3000, 30000)):
         rng = random.Random(f"C07-{ctx.seed}-corr-{i}")
